@@ -2,6 +2,7 @@
    Statements only; proofs in Proofs/Parse.v and Proofs/ParseDT.v.                              *)
 From Coq Require Import List ZArith Lia.
 From Tevec Require Import Base.Prelude Model.Parse Spec.DurationC18 Proofs.Parse.
+From Tevec Require Import Spec.CalendarC18 Model.ParseDT Proofs.CalendarC18 Proofs.ParseDT.
 Import ListNotations.
 Local Open Scope Z_scope.
 
@@ -57,6 +58,57 @@ Example C18_former_panics_are_errors :
   parse [52;50;57;52;57;54;55;50;57;55;109;111] = PErr.   (* "4294967297mo" *)
 Proof. vm_compute. repeat split. Qed.
 
+(* (3) date-time text.  The calendar used by the text model is exact: for EVERY day number,
+       civil_from_days yields a valid date and days_from_civil maps it back.                      *)
+Theorem C18_calendar_inverse :
+  forall z : Z,
+    let '(y, m, d) := civil_from_days z in
+    valid_date y m d = true /\ days_from_civil y m d = z.
+Proof. exact civil_roundtrip. Qed.
+
+(* full statement of the round trip: every unit, each of the 11 listed formats (k = 1 is also the
+   format strftime uses by default), every instant the format can express.  NOT proved in full
+   (see notes/C18.md): kept as a definition; the partial theorem below covers the default format. *)
+Definition fmt_k (k : nat) : list item := nth k rules fmt_default.
+Definition expressible (u : Z) (k : nat) (x : Z) (f : dtf) : Prop :=
+  (k <> 1%nat -> x mod per_sec u = 0) /\                                  (* whole seconds *)
+  (In k [2; 3; 5; 9]%nat -> x mod (86400 * per_sec u) = 0) /\            (* midnight      *)
+  (In k [3; 4; 7; 8]%nat -> 0 <= f_y f <= 9999).                          (* undelimited %Y *)
+Definition C18_datetime_roundtrip_full_statement : Prop :=
+  forall u k x f,
+    unit_code u -> (k < 11)%nat -> in_i64 x = true -> x <> i64_min ->
+    fields_of_instant u x = Some f -> expressible u k x f ->
+    dt_format u (fmt_k k) x = Ok (render (fmt_k k) f) /\
+    parse_with u (fmt_k k) (render (fmt_k k) f) = Some x /\
+    dt_parse u (render (fmt_k k) f) = Some x.
+
+(* partial: the default format "%Y-%m-%d %H:%M:%S.%f", years 0000..9999, all four units
+   (u = 0 s, 1 ms, 2 us, 3 ns), every non-NaT instant x: strftime renders the fields f of x, and
+   parsing that text — with the format given explicitly, and through the rule list of
+   DateTime::parse(s, None) where the first rule must reject it — returns x.                      *)
+Theorem C18_datetime_roundtrip_partial :
+  forall u x f,
+    unit_code u -> in_i64 x = true -> x <> i64_min ->
+    fields_of_instant u x = Some f -> 0 <= f_y f <= 9999 ->
+    dt_format u fmt_default x = Ok (render fmt_default f) /\
+    parse_with u fmt_default (render fmt_default f) = Some x /\
+    dt_parse u (render fmt_default f) = Some x.
+Proof. exact dt_default_roundtrip. Qed.
+
+(* non-vacuity: 2020-09-13 12:26:40.123456789 at nanosecond resolution, 1969-12-31 23:59:59.999 at ms *)
+Example C18_datetime_example :
+  let f := mk_dtf 2020 9 13 12 26 40 123456789 in
+  let g := mk_dtf 1969 12 31 23 59 59 999000000 in
+  fields_of_instant 3 1600000000123456789 = Some f /\
+  render fmt_default f = [50;48;50;48;45;48;57;45;49;51;32;49;50;58;50;54;58;52;48;46;
+                          49;50;51;52;53;54;55;56;57] /\
+  dt_parse 3 (render fmt_default f) = Some 1600000000123456789 /\
+  fields_of_instant 1 (-1) = Some g /\
+  dt_parse 1 (render fmt_default g) = Some (-1).
+Proof. vm_compute. repeat split. Qed.
+
 Print Assumptions C18_total.
 Print Assumptions C18_scanner_invariant.
 Print Assumptions C18_wellformed.
+Print Assumptions C18_calendar_inverse.
+Print Assumptions C18_datetime_roundtrip_partial.
